@@ -39,46 +39,103 @@ func handlingEnum(c *Ctx) (*types.Named, []enumConst) {
 
 // dispatch describes one switch over an enum-typed tag inside a function.
 type dispatch struct {
-	Fn     *ssa.Function
-	Tag    ssa.Value
-	Head   *ssa.BasicBlock
-	Tested map[int64]bool // constants compared against explicitly
+	Fn      *ssa.Function
+	Tag     ssa.Value
+	Head    *ssa.BasicBlock
+	Tested  map[int64]bool           // constants compared against explicitly
+	Members map[*ssa.BasicBlock]bool // the test blocks of the chain (Head included)
 }
 
-// findDispatches finds the enum switches of fn: groups of `tag == const` tests on the same tag.
+// findDispatches finds the enum switches of fn: chains of `tag == const` tests on the same tag. Two
+// switches on the same tag value (`k := t.Kind(); switch k {...}; switch k {...}`) are two dispatches:
+// a test block continues a chain only when every way into it comes from a test of that chain (directly
+// or through empty jump blocks); a test block that is also entered from a case body starts a new one.
 func findDispatches(fn *ssa.Function, enumT types.Type) []*dispatch {
-	byTag := map[ssa.Value]*dispatch{}
-	var order []*dispatch
+	tagOf := map[*ssa.BasicBlock]ssa.Value{}
 	for _, b := range fn.Blocks {
-		ifi, ok := lastInstr(b).(*ssa.If)
-		if !ok {
-			continue
-		}
-		tag, _, ok := enumTest(ifi.Cond, enumT)
-		if !ok {
-			continue
-		}
-		d := byTag[tag]
-		if d == nil {
-			d = &dispatch{Fn: fn, Tag: tag, Head: b, Tested: map[int64]bool{}}
-			byTag[tag] = d
-			order = append(order, d)
-		}
-		if b.Dominates(d.Head) {
-			d.Head = b
-		}
-	}
-	for _, d := range order {
-		for _, b := range fn.Blocks {
-			if ifi, ok := lastInstr(b).(*ssa.If); ok {
-				if tag, k, ok := enumTest(ifi.Cond, enumT); ok && tag == d.Tag {
-					d.Tested[k] = true
-				}
+		if ifi, ok := lastInstr(b).(*ssa.If); ok {
+			if tag, _, ok := enumTest(ifi.Cond, enumT); ok {
+				tagOf[b] = tag
 			}
 		}
 	}
+	// pure: the block only computes its own test (so that reaching it from the previous test has no effect)
+	pure := func(b *ssa.BasicBlock) bool {
+		ifi := lastInstr(b).(*ssa.If)
+		for _, in := range b.Instrs {
+			if in == ssa.Instruction(ifi) || in == ifi.Cond.(ssa.Instruction) {
+				continue
+			}
+			return false
+		}
+		return true
+	}
+	var fromChain func(p *ssa.BasicBlock, tag ssa.Value, depth int) bool
+	fromChain = func(p *ssa.BasicBlock, tag ssa.Value, depth int) bool {
+		if tagOf[p] == tag && tag != nil {
+			return true
+		}
+		if _, isJ := lastInstr(p).(*ssa.Jump); isJ && len(p.Instrs) == 1 && depth < 4 && len(p.Preds) > 0 {
+			for _, q := range p.Preds {
+				if !fromChain(q, tag, depth+1) {
+					return false
+				}
+			}
+			return true
+		}
+		return false
+	}
+	continues := func(b *ssa.BasicBlock) bool {
+		if len(b.Preds) == 0 || !pure(b) {
+			return false
+		}
+		for _, p := range b.Preds {
+			if !fromChain(p, tagOf[b], 0) {
+				return false
+			}
+		}
+		return true
+	}
+	var order []*dispatch
+	for _, b := range fn.Blocks {
+		if tagOf[b] == nil || continues(b) {
+			continue
+		}
+		d := &dispatch{Fn: fn, Tag: tagOf[b], Head: b, Tested: map[int64]bool{}, Members: map[*ssa.BasicBlock]bool{b: true}}
+		// collect the chain
+		work := []*ssa.BasicBlock{b}
+		seen := map[*ssa.BasicBlock]bool{b: true}
+		for len(work) > 0 {
+			x := work[len(work)-1]
+			work = work[:len(work)-1]
+			for _, su := range x.Succs {
+				if seen[su] {
+					continue
+				}
+				switch {
+				case tagOf[su] == d.Tag && continues(su):
+					seen[su] = true
+					d.Members[su] = true
+					work = append(work, su)
+				case tagOf[su] == nil && len(su.Instrs) == 1 && len(su.Succs) == 1:
+					if _, isJ := lastInstr(su).(*ssa.Jump); isJ {
+						seen[su] = true
+						work = append(work, su)
+					}
+				}
+			}
+		}
+		for m := range d.Members {
+			_, k, _ := enumTest(lastInstr(m).(*ssa.If).Cond, enumT)
+			d.Tested[k] = true
+		}
+		order = append(order, d)
+	}
 	return order
 }
+
+// IsTest: b is one of the chain's test blocks.
+func (d *dispatch) IsTest(b *ssa.BasicBlock) bool { return d.Members[b] }
 
 // enumTest recognises `tag == K` / `tag != K` (K a constant of the enum type).
 func enumTest(v ssa.Value, enumT types.Type) (tag ssa.Value, k int64, ok bool) {
@@ -105,7 +162,7 @@ func (d *dispatch) Target(k int64, enumT types.Type) *ssa.BasicBlock {
 	for steps := 0; steps < 256; steps++ {
 		ifi, ok := lastInstr(b).(*ssa.If)
 		if ok {
-			if tag, c, isTest := enumTest(ifi.Cond, enumT); isTest && tag == d.Tag && onlyTests(b, ifi) {
+			if tag, c, isTest := enumTest(ifi.Cond, enumT); isTest && tag == d.Tag && d.IsTest(b) {
 				eq := c == k
 				if ifi.Cond.(*ssa.BinOp).Op == token.NEQ {
 					eq = !eq
